@@ -10,7 +10,7 @@
 //          a non-zero duration (zero-duration frames are layers of the next shown frame)
 //   C01/C14  geometry helpers: sample size, group / LF-group counts, group sizes, group index <-> coordinate,
 //          collision predicates. Postconditions are stated in u64 "mathematical" arithmetic.
-//   C14  BlendingInfo / Passes bundles: parse(spec_enc(h)) == h and parsing stops at the writer's bit.
+//   C14  BlendingInfo bundle: parse(spec_enc(h)) == h and parsing stops at the writer's bit.
 //
 // Headers are built with `default_with_context` (never parsed: CBMC cannot get through FrameHeader::parse)
 // and the public fields are overwritten inside the ranges that `Frame::parse` validates:
@@ -457,88 +457,9 @@ fn blending_info_roundtrip() {
     kani::cover!(has_source_field && raw_mode == 0 && canvas.have_crop && len == 8);
 }
 
-// ---------------------------------------------------------------------------------------------------
-// C14: Passes  --  parse(spec_enc(h)) == h, exact bit count (18181-1 F.2, table "Passes")
-//   num_passes U32(1, 2, 3, 4 + u(3)); if num_passes != 1: num_ds U32(0, 1, 2, 3 + u(1)),
-//   shift[num_passes - 1] u(2), downsample[num_ds] U32(1, 2, 4, 8), last_pass[num_ds] U32(0, 1, 2, u(3))
-// bounded: num_passes <= PASSES_MAX_PASSES, num_ds <= PASSES_MAX_DS (Vec construction in CBMC), all field values
-// ---------------------------------------------------------------------------------------------------
-const PASSES_MAX_PASSES: u32 = 4;
-const PASSES_MAX_DS: u32 = 2;
-
-#[kani::proof]
-#[kani::unwind(10)]
-fn passes_roundtrip() {
-    let num_passes: u32 = kani::any();
-    kani::assume(1 <= num_passes && num_passes <= PASSES_MAX_PASSES);
-    let num_ds: u32 = kani::any();
-    kani::assume(num_ds <= PASSES_MAX_DS && (num_passes != 1 || num_ds == 0));
-    let shift: [u32; 3] = kani::any();
-    let ds_log: [u32; 4] = kani::any(); // downsample = 1 << ds_log
-    let last_pass: [u32; 4] = kani::any();
-    let last_pass_long: [bool; 4] = kani::any(); // values 0..=2 have two encodings: selector 0..2 or selector 3 + u(3)
-
-    let mut wr = SpecWriter { acc: 0, n: 0 };
-    if num_passes < 4 { wr.u32(num_passes - 1, 0, 0) } else { wr.u32(3, num_passes - 4, 3) }
-    if num_passes != 1 {
-        if num_ds < 3 { wr.u32(num_ds, 0, 0) } else { wr.u32(3, num_ds - 3, 1) }
-        let mut i = 0;
-        while i < 3 {
-            if (i as u32) < num_passes - 1 {
-                kani::assume(shift[i] <= 3);
-                wr.u(shift[i], 2);
-            }
-            i += 1;
-        }
-        let mut i = 0;
-        while i < 4 {
-            if (i as u32) < num_ds {
-                kani::assume(ds_log[i] <= 3);
-                wr.u32(ds_log[i], 0, 0);
-            }
-            i += 1;
-        }
-        let mut i = 0;
-        while i < 4 {
-            if (i as u32) < num_ds {
-                kani::assume(last_pass[i] <= 7);
-                if last_pass[i] < 3 && !last_pass_long[i] { wr.u32(last_pass[i], 0, 0) } else { wr.u32(3, last_pass[i], 3) }
-            }
-            i += 1;
-        }
-    }
-    assert!(wr.n <= 2 + 3 + 6 + 8 + 20);
-    let bytes = wr.bytes(kani::any());
-    let mut bs = Bitstream::new(&bytes);
-    let r = Passes::parse(&mut bs, ());
-    match r {
-        Ok(p) => {
-            assert!(p.num_passes == num_passes && p.num_ds == num_ds, "[C14] Passes.num_passes / num_ds are reported as encoded");
-            assert!(p.shift.len() == (num_passes - 1) as usize && p.downsample.len() == num_ds as usize && p.last_pass.len() == num_ds as usize,
-                "[C14] Passes arrays have num_passes - 1 / num_ds / num_ds entries");
-            let mut i = 0;
-            while i < 3 {
-                if (i as u32) < num_passes - 1 {
-                    assert!(p.shift[i] == shift[i], "[C14] Passes.shift[i] is reported as encoded");
-                }
-                i += 1;
-            }
-            let mut i = 0;
-            while i < 4 {
-                if (i as u32) < num_ds {
-                    assert!(p.downsample[i] == 1 << ds_log[i], "[C14] Passes.downsample[i] in {{1,2,4,8}} is reported as encoded");
-                    assert!(p.last_pass[i] == last_pass[i], "[C14] Passes.last_pass[i] is reported as encoded");
-                }
-                i += 1;
-            }
-            assert!(bs.num_read_bits() == wr.n as usize, "[C14] Passes parsing stops at exactly the bit the writer stopped at");
-        }
-        Err(_) => assert!(false, "[C14] a complete Passes bundle is accepted"),
-    }
-    kani::cover!(num_passes == 1 && wr.n == 2);
-    kani::cover!(num_passes == PASSES_MAX_PASSES && num_ds == PASSES_MAX_DS);
-    kani::cover!(num_passes == 3 && num_ds == 2 && last_pass[1] == 7);
-}
+// (Passes: parse(spec_enc(h)) == h was attempted with num_passes <= 4, num_ds <= 2 on an 8-byte buffer and does not
+//  close in CBMC within 10 minutes -- three `Vec` collects of `Result`s with symbolic lengths -- so there is no
+//  obligation for it; the U32 / u(n) readers it is built from are covered by the jxl-bitstream contracts.)
 
 // ---------------------------------------------------------------------------------------------------
 // canary: same pipeline, same header construction, must FAIL
